@@ -14,7 +14,8 @@ PROPERTY = "C08"
 RULE = (
     "every sorted tree ST(n) and every labelled tree LT(n) up to the tier bound, tagged generic geometry; "
     "per tree: get_branches/get_paths/get_tips/get_furcations/Node.branch/BranchTree.from_tree/ToBranchTree/"
-    "ToLongestPath compared with the reference decomposition; non-trivial = at least 2 nodes; distinct = distinct parent table"
+    "ToLongestPath compared with the reference decomposition; histories query-all -> in-place re-parenting (every admissible single "
+    "edit via node handle / column / on a copy) -> query-all again; branch trees of earlier cases re-inspected after later calls; non-trivial = at least 2 nodes; distinct = distinct parent table"
 )
 ASSUMPTIONS = [
     "generic geometry bank is tie-free (validated at start-up), so nodes are identified by coordinates",
@@ -26,13 +27,38 @@ def _ids(nodes):
     return [int(n.id) for n in nodes]
 
 
+def _warm(t):
+    """Run every decomposition query once (whatever they cache is warm afterwards)."""
+    from swcgeom.core import BranchTree
+    from swcgeom.transforms import ToLongestPath
+
+    t.get_branches(), t.get_paths(), t.get_tips(), t.get_furcations()
+    for i in range(len(t)):
+        t.node(i).is_tip(), t.node(i).is_furcation()
+    if len(t) >= 2:
+        BranchTree.from_tree(t)
+        ToLongestPath()(t)
+
+
 def check_tree(case, R):
     kind, p = case[0], list(case[1])
+    edit = case[2] if len(case) > 2 else None
     n = len(p)
-    R.state(p)
     if n < 2:
         R.trivial()
     t = build.make_tree(p)
+    if edit is not None:
+        # history: query everything, re-parent one node in place, query again: answers must describe the CURRENT tree
+        t, p, other, other_p = build.apply_reparent(t, p, edit, _warm)
+        if other is not None:
+            R.state("edited-copy-origin", other_p, edit)
+            check_on(other, other_p, R)
+    R.state(p, edit)
+    check_on(t, p, R)
+
+
+def check_on(t, p, R):
+    n = len(p)
     tags = build.tags_xyz(t)
     snap = build.snapshot(t)
     ch = ref.children(p)
@@ -106,6 +132,7 @@ def check_tree(case, R):
                 continue
             wf, why = build.wellformed(bt)
             R.check(wf, "branchtree:wellformed", lambda: f"p={p} {why}")
+            R.retain(nm, lambda bt=bt: (build.canon_tree(bt), sorted((int(k), [b.xyzr().tolist() for b in v]) for k, v in bt.branches.items())))
             btags = build.tags_xyz(bt)
             crit = sorted({0} | set(ref.furcations(p)) | set(ref.tips(p)))
             R.check(sorted(btags) == sorted(tags[i] for i in crit), "branchtree:nodes",
@@ -144,10 +171,14 @@ def check_tree(case, R):
                                    for idx, lst in bt.branches.items() for b in lst)
                     t.ndata["x"][...] = saved
                     R.check(before == after, "branchtree:detached", lambda: f"p={p} remembered branch points follow edits of the tree")
+                    undo = []
                     for lst in bt.branches.values():
                         for b in lst:
+                            undo.append((b.attach.ndata["x"], b.attach.ndata["x"].copy()))
                             b.attach.ndata["x"] += 1
                     R.check(build.snapshot(t) == snap, "branchtree:detached", lambda: f"p={p} editing a remembered branch changed the tree")
+                    for arr, old in undo:
+                        arr[...] = old
 
     # ---- longest path
     from swcgeom.transforms import ToLongestPath
@@ -212,7 +243,17 @@ def spaces(tier, seed):
                 if not ref.is_sorted(p):
                     yield ("LT", p)
 
-    out = [Space.of("trees", gen, check_tree, bounds={"ST_max_nodes": st_hi, "LT_max_nodes": lt_hi, "geometry": "generic bank 0"})]
+    ed_hi = 5 if tier == "quick" else 6
+
+    def gen_edit():
+        for n in range(2, ed_hi + 1):
+            for p in S.sorted_trees(n):
+                for (i, j) in build.reparent_edits(p):
+                    for how in build.EDIT_HOWS:
+                        yield ("ED", p, (i, j, how))
+
+    out = [Space.of("query-edit-query", gen_edit, check_tree, bounds={"ST_max_nodes": ed_hi, "edits": "every single re-parenting that keeps the tree well-formed", "how": build.EDIT_HOWS}),
+           Space.of("trees", gen, check_tree, bounds={"ST_max_nodes": st_hi, "LT_max_nodes": lt_hi, "geometry": "generic bank 0"})]
     if tier == "thorough":
         files = sorted(glob.glob("/repo/examples/data/*.swc"))
         out.append(Space.of("example-files", lambda: [os.path.relpath(f, "/repo") for f in files], check_file,
